@@ -22,6 +22,14 @@ pub(super) fn try_into_exprs(
 ) -> Result<Vec<sql_ast::Expr>> {
     let (cids, excluded) = translate_wildcards(&ctx.anchor, cids);
 
+    // verification hook (select items): what the loop below reads
+    #[cfg(prqlc_verif)]
+    let verif_in = {
+        let mut v = verif_items::inputs(&cids, &excluded, ctx);
+        v["allow_stars"] = serde_json::json!(ctx.query.allow_stars);
+        v
+    };
+
     let mut res = Vec::new();
     for cid in cids {
         let decl = ctx.anchor.column_decls.get(&cid).unwrap();
@@ -36,9 +44,21 @@ pub(super) fn try_into_exprs(
         let t = &ctx.anchor.relation_instances[riid];
         let table_name = t.table_ref.name.clone().map(Ident::from_name);
 
+        #[cfg(prqlc_verif)]
+        if !ctx.query.allow_stars {
+            log::debug!(
+                "verif:try_into_exprs {}",
+                serde_json::json!({"in": verif_in, "err": "star", "at": cid.get()})
+            );
+        }
         let ident = translate_star(ctx, span)?;
         if let Some(excluded) = excluded.get(&cid) {
             if !excluded.is_empty() {
+                #[cfg(prqlc_verif)]
+                log::debug!(
+                    "verif:try_into_exprs {}",
+                    serde_json::json!({"in": verif_in, "err": "exclude", "at": cid.get()})
+                );
                 return Err(
                     Error::new_simple("Excluding columns not supported as this position")
                         .with_span(span),
@@ -49,6 +69,11 @@ pub(super) fn try_into_exprs(
 
         res.push(sql_ast::Expr::CompoundIdentifier(ident));
     }
+    #[cfg(prqlc_verif)]
+    log::debug!(
+        "verif:try_into_exprs {}",
+        serde_json::json!({"in": verif_in, "exprs": res.iter().map(verif_items::expr).collect::<Vec<_>>()})
+    );
     Ok(res)
 }
 
@@ -212,6 +237,10 @@ pub(super) fn translate_select_items(
     mut excluded: Excluded,
     ctx: &mut Context,
 ) -> Result<Vec<SelectItem>> {
+    // verification hook (select items): everything this function reads, before `excluded`
+    // is consumed
+    #[cfg(prqlc_verif)]
+    let verif_si_in = verif_items::inputs(&cols, &excluded, ctx);
     // verification hook: the columns this select list is built from and how deeply the
     // SELECT is nested (1 = a top-level SELECT: the main query or a CTE)
     #[cfg(prqlc_verif)]
@@ -270,6 +299,9 @@ pub(super) fn translate_select_items(
         serde_json::json!({"cols": verif_cols, "depth": ctx.query_stack.len(), "items": res.len()})
     );
 
+    #[cfg(prqlc_verif)]
+    let verif_si_items = verif_items::items(&res);
+
     deduplicate_select_items(&mut res);
 
     if res.is_empty() && !ctx.dialect.supports_zero_columns() {
@@ -284,6 +316,12 @@ pub(super) fn translate_select_items(
             sql_ast::Value::Null.into(),
         )));
     }
+    #[cfg(prqlc_verif)]
+    log::debug!(
+        "verif:select_items {}",
+        serde_json::json!({"in": verif_si_in, "items": verif_si_items, "final": verif_items::items(&res),
+            "gen_after": ctx.anchor.col_name.clone().gen()})
+    );
     Ok(res)
 }
 
@@ -340,4 +378,124 @@ fn as_col_names<'a>(cids: &'a HashSet<CId>, ctx: &'a AnchorContext) -> Vec<&'a s
                 .unwrap_or("<unnamed>")
         })
         .collect_vec()
+}
+
+/// verification hook (select items): JSON views of what `translate_select_items`,
+/// `translate_exclude` and `try_into_exprs` read and produce. Read-only.
+#[cfg(prqlc_verif)]
+mod verif_items {
+    use serde_json::{json, Value};
+    use sqlparser::ast::{self as sql_ast, ExcludeSelectItem, SelectItem};
+
+    use super::super::dialect::ColumnExclude;
+    use super::super::pq::context::ColumnDecl;
+    use super::super::Context;
+    use super::Excluded;
+    use crate::ir::rq::{CId, RelationColumn};
+
+    fn decl(ctx: &Context, cid: &CId) -> Value {
+        match ctx.anchor.column_decls.get(cid) {
+            Some(ColumnDecl::RelationColumn(_, _, RelationColumn::Wildcard)) => json!("wildcard"),
+            Some(ColumnDecl::RelationColumn(_, _, RelationColumn::Single(n))) => json!({"single": n}),
+            Some(ColumnDecl::Compute(_)) => json!("compute"),
+            None => json!("missing"),
+        }
+    }
+
+    pub(super) fn inputs(cols: &[CId], excluded: &Excluded, ctx: &Context) -> Value {
+        let cols: Vec<Value> = cols
+            .iter()
+            .map(|cid| match ctx.anchor.column_decls.get(cid) {
+                Some(ColumnDecl::RelationColumn(riid, _, RelationColumn::Wildcard)) => {
+                    let t = &ctx.anchor.relation_instances[riid];
+                    let columns: Vec<Value> = (t.table_ref.columns.iter())
+                        .map(|(_, c)| json!([c.get(), decl(ctx, c)]))
+                        .collect();
+                    let original: Vec<usize> = t.original_cids.iter().map(|c| c.get()).collect();
+                    json!({"cid": cid.get(), "wild": {"table": t.table_ref.name, "columns": columns, "original": original}})
+                }
+                _ => json!({"cid": cid.get(), "wild": null}),
+            })
+            .collect();
+        let mut exc: Vec<(usize, Vec<(usize, Value)>)> = excluded
+            .iter()
+            .map(|(k, v)| {
+                let mut v: Vec<(usize, Value)> = v.iter().map(|c| (c.get(), decl(ctx, c))).collect();
+                v.sort_by_key(|x| x.0);
+                (k.get(), v)
+            })
+            .collect();
+        exc.sort_by_key(|x| x.0);
+        // the naming context the column items read (`clone().gen()` peeks at the next generated
+        // name without consuming it)
+        let mut names: Vec<(usize, String)> = (ctx.anchor.column_names.iter())
+            .map(|(c, n)| (c.get(), n.clone()))
+            .collect();
+        names.sort();
+        json!({
+            "cols": cols,
+            "excluded": exc,
+            "omit_ident_prefix": ctx.query.omit_ident_prefix,
+            "depth": ctx.query_stack.len(),
+            "column_names": names,
+            "gen": ctx.anchor.col_name.clone().gen(),
+            "column_exclude": match ctx.dialect.column_exclude() {
+                None => "none",
+                Some(ColumnExclude::Exclude) => "exclude",
+                Some(ColumnExclude::Except) => "except",
+            },
+            "supports_zero_columns": ctx.dialect.supports_zero_columns(),
+            "dialect": format!("{:?}", ctx.dialect_enum),
+        })
+    }
+
+    fn ident(i: &sql_ast::Ident) -> Value {
+        json!([i.value, i.quote_style])
+    }
+
+    pub(super) fn expr(e: &sql_ast::Expr) -> Value {
+        match e {
+            sql_ast::Expr::CompoundIdentifier(parts) => json!({"compound": parts.iter().map(ident).collect::<Vec<_>>()}),
+            sql_ast::Expr::Identifier(i) => json!({"ident": ident(i)}),
+            sql_ast::Expr::Value(v) if matches!(v.value, sql_ast::Value::Null) => json!("null"),
+            _ => json!("other"),
+        }
+    }
+
+    fn opts(o: &sql_ast::WildcardAdditionalOptions) -> Value {
+        json!({
+            "exclude": o.opt_exclude.as_ref().map(|e| match e {
+                ExcludeSelectItem::Single(i) => vec![ident(i)],
+                ExcludeSelectItem::Multiple(v) => v.iter().map(ident).collect(),
+            }),
+            "except": o.opt_except.as_ref().map(|e| {
+                let mut v = vec![ident(&e.first_element)];
+                v.extend(e.additional_elements.iter().map(ident));
+                v
+            }),
+            "other": o.opt_ilike.is_some() || o.opt_replace.is_some() || o.opt_rename.is_some(),
+        })
+    }
+
+    pub(super) fn items(items: &[SelectItem]) -> Vec<Value> {
+        items
+            .iter()
+            .map(|item| match item {
+                SelectItem::Wildcard(o) => json!({"star": [], "opts": opts(o)}),
+                SelectItem::QualifiedWildcard(
+                    sql_ast::SelectItemQualifiedWildcardKind::ObjectName(n),
+                    o,
+                ) => json!({
+                    "star": n.0.iter().map(|p| match p.as_ident() {
+                        Some(i) => ident(i),
+                        None => json!(p.to_string()),
+                    }).collect::<Vec<_>>(),
+                    "opts": opts(o)
+                }),
+                SelectItem::QualifiedWildcard(..) => json!("expr-wildcard"),
+                SelectItem::UnnamedExpr(e) => json!({"col": expr(e)}),
+                SelectItem::ExprWithAlias { expr: e, alias } => json!({"col": expr(e), "alias": ident(alias)}),
+            })
+            .collect()
+    }
 }
